@@ -35,7 +35,7 @@ for pid in sorted(CLAIMED):
     if pid in READY:
         checks.append(dict(property_id=pid, quick_cmd='bin/check %s --tier quick' % pid, thorough_cmd='bin/check %s --tier thorough' % pid,
                            evidence_file='/verif/evidence/%s.json' % pid, replay_cmd_template='bin/replay {path}', engine='coq-proof+correspondence',
-                           level_claimed=dict(category='proof', text=text, design_ref='DESIGN.md section ' + ref), level_note=NOTE,
+                           level_claimed=dict(category='proof', text=text, design_ref='DESIGN.md section ' + ref + '; as built: section 8.3 (theorems and domains), 8.13 (trusted base)'), level_note=NOTE,
                            technique='machine-checked proof in Coq 8.16 over a model tied to the code (translator for accessors, differential correspondence for codecs)'))
     else:
         na.append(dict(property_id=pid, reason='not claimed yet: the Coq theorem file for this property is still being built in this session (technique applies; see DESIGN.md section %s)' % ref))
